@@ -16,11 +16,11 @@ use serde_json::json;
 pub const SPEC: PropSpec = PropSpec {
 	id: "C06",
 	level: "exploration",
-	rule: "direction A (crate writes): files from the C05 workload plus random user metadata maps (0..8 keys, binary values) are un-framed by the reference parser: magic, metadata map with avro.schema JSON-equal to Schema::json() and avro.codec = specification name, every user key with exact bytes, 16-byte sync, blocks of (count, size, codec-framed data, same sync); decoded values == written; for deflate/bzip2/xz a sample of files is additionally un-framed by tools/ocf_ref.py (python zlib raw / bz2 / lzma, stream must be terminated with nothing after it; block counts, raw lengths and CRC-32 compared); apache-avro reads a fixed-shape sample. direction B (crate reads): the reference writer produces any block partitioning incl. zero-count blocks, shuffled metadata order, extra keys, metadata map split in several blocks / negative-count blocks, avro.codec absent or \"null\", all six codecs; apache-avro-written files for its codecs; the crate's Reader (slice / BufReader / chunked) must yield exactly the values. distinct by hash(file bytes)",
+	rule: "direction A (crate writes; half of the files through a sink that accepts only part of each write): files from the C05 workload plus random user metadata maps (0..8 keys, binary values) are un-framed by the reference parser: magic, metadata map with avro.schema JSON-equal to Schema::json() and avro.codec = specification name, every user key with exact bytes, 16-byte sync, blocks of (count, size, codec-framed data, same sync); decoded values == written; for deflate/bzip2/xz a sample of files is additionally un-framed by tools/ocf_ref.py (python zlib raw / bz2 / lzma, stream must be terminated with nothing after it; block counts, raw lengths and CRC-32 compared); apache-avro reads a fixed-shape sample. direction B (crate reads): the reference writer produces any block partitioning incl. zero-count blocks, shuffled metadata order, extra keys, metadata map split in several blocks / negative-count blocks, avro.codec absent or \"null\", all six codecs; apache-avro-written files for its codecs; the crate's Reader (slice / BufReader / chunked) must yield exactly the values. distinct by hash(file bytes)",
 	assumptions: &["codec libraries' own streaming front ends and python3's zlib/bz2/lzma are the trusted base for payload (de)compression"],
 	cases: (50_000_000, 4_000_000_000),
 	secs: (45, 900),
-	required: &["crate_written_layout_ok", "reference_written_read_ok", "user_metadata_checked", "codec_key_absent_read_ok", "python_crosschecks_ok", "apache_reads_crate_ok", "crate_reads_apache_ok"],
+	required: &["crate_written_layout_ok", "files_written_to_short_writing_sink", "reference_written_read_ok", "user_metadata_checked", "codec_key_absent_read_ok", "python_crosschecks_ok", "apache_reads_crate_ok", "crate_reads_apache_ok"],
 	run_case,
 	once: None,
 	panics_are_violations: true,
@@ -61,11 +61,15 @@ fn crate_writes(ctx: &mut Ctx, case_seed: u64, rng: &mut Rng) {
 		Err(_) => return,
 	};
 	let mut wc = pick_write_cfg(rng);
+	wc.sink_schedule = crate::props::c05::pick_sink_schedule(rng);
+	if wc.sink_schedule.is_some() {
+		ctx.count("files_written_to_short_writing_sink");
+	}
 	wc.user_meta = user_meta(rng);
 	wc.sync = rng.bytes(16).try_into().unwrap();
 	let ops = op_pattern(rng, vals.len());
 	let describe = |extra: serde_json::Value| {
-		json!({"schema": rs.spell(None).compact(), "payload_shape": shape, "n_values": vals.len(), "codec": wc.codec.name(), "level": wc.level, "approx_block_size": wc.approx_block_size,
+		json!({"schema": rs.spell(None).compact(), "payload_shape": shape, "n_values": vals.len(), "codec": wc.codec.name(), "level": wc.level, "approx_block_size": wc.approx_block_size, "sink_schedule": format!("{:?}", wc.sink_schedule),
 			"user_metadata_keys": wc.user_meta.iter().map(|(k, v)| format!("{k} ({} bytes)", v.len())).collect::<Vec<_>>(), "ops": format!("{ops:?}").chars().take(400).collect::<String>(), "extra": extra})
 	};
 	let file = match write_file(&schema, &rs, &vals, &ops, &wc, &Pres::canonical()) {
